@@ -534,3 +534,184 @@ pub proof fn lemma_L_COUNT<T>(a: A<T>, l: Ledger)
         // close: both read zero afterwards, for ever (L-CLOSED)
         ref_close_post(a).sc == 0 && ref_close_post(a).rc == 0,
 {}
+
+// ================================================================== whole-history lemmas (C01, C02, C08, C10)
+// Every entry point is proved to perform, per critical section, one of the steps below on alpha(state)
+// (O-step, O-close.state, O-drop.state, O-count.clone, O-cancel-order ...), and critical sections exclude each
+// other (R1).  Hence every execution, under every schedule, is a sequence of these steps; what is shown here by
+// induction over *all* finite step sequences therefore holds at every instant of every execution.
+
+pub enum HOp<T> {
+    /// a send-type section that does not register (try_send, or the first section of send / poll when not Full)
+    Send(T),
+    /// a send-type section on a Full channel that registers the waiter `t` (payload(t) is the value)
+    SendRegister(SignalTerminator<T>),
+    /// a receive-type section that does not register
+    Recv,
+    RecvRegister(SignalTerminator<T>),
+    /// a blocked sender / receiver removes its own entry (timeout, dropped future)
+    CancelSender(int),
+    CancelReceiver(int),
+    Close, CloneSender, CloneReceiver, DropSender, DropReceiver,
+}
+
+/// channel state plus the ghost history needed to state exactly-once and FIFO
+pub ghost struct H<T> {
+    pub a: A<T>,
+    /// values accepted and neither withdrawn nor destroyed, in acceptance order
+    pub live: Seq<T>,
+    /// values handed to receive operations, in the order they were handed out
+    pub delivered: Seq<T>,
+    pub ever_closed: bool,
+}
+
+pub open spec fn hstep<T>(h: H<T>, op: HOp<T>) -> H<T> {
+    let a = h.a;
+    match op {
+        HOp::Send(d) => match ref_send_class(a) {
+            SendClass::Buffered => H { a: ref_send_post(a, d), live: h.live.push(d), ..h },
+            SendClass::Handoff => H { a: ref_send_post(a, d), live: h.live.push(d), delivered: h.delivered.push(d), ..h },
+            _ => h,
+        },
+        HOp::SendRegister(t) => if ref_send_class(a) is Full && a.sc != 0 {
+            H { a: ref_send_register(a, t), live: h.live.push(payload(t)), ..h }
+        } else { h },
+        HOp::Recv => match ref_recv_value(a) {
+            Some(v) => H { a: ref_recv_post(a), delivered: h.delivered.push(v), ..h },
+            None => h,
+        },
+        HOp::RecvRegister(t) => if ref_recv_class(a) is Empty { H { a: ref_recv_register(a, t), ..h } } else { h },
+        HOp::CancelSender(i) => if 0 <= i < a.s.len() {
+            H { a: A { s: a.s.remove(i), ..a }, live: h.live.remove(h.delivered.len() + a.q.len() + i), ..h }
+        } else { h },
+        HOp::CancelReceiver(i) => if 0 <= i < a.r.len() { H { a: A { r: a.r.remove(i), ..a }, ..h } } else { h },
+        HOp::Close => if closed(a) { h } else {
+            H { a: ref_close_post(a), live: h.live.take(h.delivered.len() as int), ever_closed: true, ..h }
+        },
+        HOp::CloneSender => H { a: ref_clone_sender(a), ..h },
+        HOp::CloneReceiver => H { a: ref_clone_receiver(a), ..h },
+        // dropping the last handle of a side releases the other side's waiters with an error: blocked senders
+        // take their values back (withdrawn from `live`)
+        HOp::DropSender => H { a: ref_drop_sender(a), live: if a.sc == 1 && a.rc != 0 { h.live.take((h.delivered.len() + a.q.len()) as int) } else { h.live }, ..h },
+        HOp::DropReceiver => H { a: ref_drop_receiver(a), live: if a.rc == 1 && a.sc != 0 { h.live.take((h.delivered.len() + a.q.len()) as int) } else { h.live }, ..h },
+    }
+}
+
+pub open spec fn hinit<T>(cap: int) -> H<T> {
+    H { a: A { q: Seq::empty(), s: Seq::empty(), r: Seq::empty(), cap: cap, rc: 1, sc: 1 }, live: Seq::empty(), delivered: Seq::empty(), ever_closed: false }
+}
+
+pub open spec fn hrun<T>(h: H<T>, ops: Seq<HOp<T>>) -> H<T>
+    decreases ops.len()
+{
+    if ops.len() == 0 { h } else { hstep(hrun(h, ops.drop_last()), ops.last()) }
+}
+
+/// the history invariant: lock invariant + "everything accepted and still live is exactly what has been
+/// delivered, in order, followed by what the channel still holds, in order" (exactly-once + FIFO)
+pub open spec fn hinv<T>(h: H<T>) -> bool {
+    &&& awf(h.a)
+    &&& h.live =~= h.delivered + logical(h.a)
+    &&& (h.ever_closed ==> closed(h.a))
+}
+
+pub proof fn lemma_hstep_preserves<T>(h: H<T>, op: HOp<T>)
+    requires hinv(h),
+    ensures hinv(hstep(h, op)),
+        // delivered only ever grows, by the head of the logical order or by a value just accepted (hand-off)
+        h.delivered.is_prefix_of(hstep(h, op).delivered),
+        // C10: after close nothing is delivered and nothing changes
+        closed(h.a) ==> hstep(h, op).delivered =~= h.delivered && aeq(hstep(h, op).a, h.a),
+{
+    let a = h.a;
+    let m = |t: SignalTerminator<T>| payload(t);
+    let n = hstep(h, op);
+    match op {
+        HOp::Send(d) => {
+            lemma_L_FIFO(a, d, arbitrary());
+            if ref_send_class(a) is Buffered {
+                assert(logical(n.a) =~= logical(a).push(d));
+                assert(n.live =~= n.delivered + logical(n.a));
+            } else if ref_send_class(a) is Handoff {
+                assert(logical(a).len() == 0);
+                assert(logical(n.a).len() == 0);
+                assert(n.live =~= n.delivered + logical(n.a));
+            }
+        }
+        HOp::SendRegister(t) => {
+            if ref_send_class(a) is Full && a.sc != 0 {
+                lemma_L_FIFO(a, payload(t), t);
+                assert(logical(n.a) =~= logical(a).push(payload(t)));
+                assert(n.live =~= n.delivered + logical(n.a));
+            }
+        }
+        HOp::Recv => {
+            lemma_L_FIFO(a, arbitrary(), arbitrary());
+            if let Some(v) = ref_recv_value(a) {
+                assert(logical(n.a) =~= logical(a).skip(1));
+                assert(v == logical(a)[0]);
+                assert(n.delivered + logical(n.a) =~= h.delivered + logical(a));
+            }
+        }
+        HOp::RecvRegister(t) => {
+            assert(logical(n.a) =~= logical(a));
+        }
+        HOp::CancelSender(i) => {
+            if 0 <= i < a.s.len() {
+                assert(a.s.remove(i).map_values(m) =~= a.s.map_values(m).remove(i));
+                assert(logical(n.a) =~= logical(a).remove(a.q.len() + i));
+                assert(n.live =~= n.delivered + logical(n.a));
+            }
+        }
+        HOp::CancelReceiver(i) => {
+            assert(logical(n.a) =~= logical(a));
+        }
+        HOp::Close => {
+            if !closed(a) {
+                assert(logical(n.a).len() == 0);
+                assert(n.live =~= n.delivered + logical(n.a));
+            }
+        }
+        HOp::CloneSender => { assert(logical(n.a) =~= logical(a)); }
+        HOp::CloneReceiver => { assert(logical(n.a) =~= logical(a)); }
+        HOp::DropSender => {
+            if a.sc == 1 && a.rc != 0 {
+                assert(logical(n.a) =~= a.q);
+                assert(n.live =~= n.delivered + logical(n.a));
+            } else {
+                assert(logical(n.a) =~= logical(a));
+            }
+        }
+        HOp::DropReceiver => {
+            if a.rc == 1 && a.sc != 0 {
+                assert(logical(n.a) =~= a.q);
+                assert(n.live =~= n.delivered + logical(n.a));
+            } else {
+                assert(logical(n.a) =~= logical(a));
+            }
+        }
+    }
+}
+
+/// H-INV: for every finite sequence of steps from a fresh channel of any capacity the invariant holds --
+/// in particular the buffer never exceeds the capacity (C08), nothing is delivered twice or out of order and
+/// nothing live is lost (C01, C02), and a closed channel stays closed (C10).
+pub proof fn lemma_H_INV<T>(cap: int, ops: Seq<HOp<T>>)
+    requires cap >= 0,
+    ensures hinv(hrun(hinit::<T>(cap), ops)), hrun(hinit::<T>(cap), ops).a.q.len() <= cap,
+    decreases ops.len()
+{
+    if ops.len() == 0 {
+        assert(logical(hinit::<T>(cap).a) =~= Seq::<T>::empty());
+    } else {
+        lemma_H_INV::<T>(cap, ops.drop_last());
+        lemma_hstep_preserves(hrun(hinit::<T>(cap), ops.drop_last()), ops.last());
+        assert(hrun(hinit::<T>(cap), ops).a.cap == cap) by { lemma_cap_constant::<T>(cap, ops); }
+    }
+}
+pub proof fn lemma_cap_constant<T>(cap: int, ops: Seq<HOp<T>>)
+    ensures hrun(hinit::<T>(cap), ops).a.cap == cap,
+    decreases ops.len()
+{
+    if ops.len() > 0 { lemma_cap_constant::<T>(cap, ops.drop_last()); }
+}
